@@ -343,9 +343,10 @@ Lemma NAMES_rows_same w w' : rows (dbs w') = rows (dbs w) -> NAMES w w'.
 Proof. intro H. exists []. unfold names. now rewrite H, app_nil_r. Qed.
 
 Lemma PRES1_fs n w w' :
-  fs_get (fs w') n = fs_get (fs w) n -> rows (dbs w') = rows (dbs w) -> PRES1 n w w'.
+  (reserved n = false -> fs_get (fs w') n = fs_get (fs w) n) -> rows (dbs w') = rows (dbs w) -> PRES1 n w w'.
 Proof.
-  intros Hfs Hr Hp. split; [exact Hfs|].
+  intros Hfs0 Hr Hp. assert (Hfs : fs_get (fs w') n = fs_get (fs w) n) by (apply Hfs0; apply Hp).
+  split; [exact Hfs|].
   apply (protected_ext w); [exact Hfs| |exact Hp].
   intros i Hi. left. rewrite Hr in Hi. split; [exact Hi|]. unfold get_row. now rewrite Hr.
 Qed.
@@ -483,4 +484,581 @@ Proof.
     - intros n _ _. apply row_protects_safe. left. reflexivity. }
   eapply walk_deps_DSTEP; [|apply DSTEP_refl|exact H].
   intros w1 c1 s v1 w1' c1' evs1 E. eapply IH; exact E.
+Qed.
+
+(* ================================================================ from_name and the script commands *)
+Lemma from_name_spec d m d1 i :
+  from_name d m = (d1, i) -> find_row (rows d1) m 1 = Some i /\ EXT d d1 /\ deps d1 = deps d /\ maxrun d1 = maxrun d.
+Proof.
+  unfold from_name. destruct (find_row (rows d) m 1) as [j|] eqn:E; intro H; inversion H; subst.
+  - split; [exact E|]. split; [apply EXT_refl|]. split; reflexivity.
+  - cbn [rows deps maxrun]. split; [|split; [|split; reflexivity]].
+    + rewrite find_row_app_none by exact E. cbn. rewrite bytes_eqb_refl. f_equal; lia.
+    + exists [empty_row m]. split; [reflexivity|repeat constructor].
+Qed.
+
+Lemma find_row_valid d n i :
+  find_row (rows d) n 1 = Some i -> (i - 1 < length (rows d))%nat /\ r_name (get_row d i) = n.
+Proof.
+  intro H. pose proof (find_row_bounds _ _ _ _ H). split; [lia|]. unfold get_row. apply (find_row_name _ _ 1). exact H.
+Qed.
+
+Lemma EXT_add_dep d t m s : EXT d (add_dep d t m s).
+Proof. apply EXT_rows_same. reflexivity. Qed.
+
+Lemma EXT_fold_ifcreate t ns : forall d,
+  EXT d (fold_left (fun d n => let '(d1, s) := from_name d n in
+                               let '(d2, me) := from_name d1 t in add_dep d2 me DCreated s) ns d).
+Proof.
+  induction ns as [|n ns IH]; intro d; cbn [fold_left]; [apply EXT_refl|].
+  destruct (from_name d n) as [d1 s] eqn:E1. destruct (from_name d1 t) as [d2 me] eqn:E2.
+  eapply EXT_trans; [|apply IH].
+  apply from_name_spec in E1 as (_ & X1 & _). apply from_name_spec in E2 as (_ & X2 & _).
+  eapply EXT_trans; [exact X1|]. eapply EXT_trans; [exact X2|apply EXT_add_dep].
+Qed.
+
+Lemma EXT_fold_frontend mf ts : forall d,
+  EXT d (fold_left (fun d t => let '(d', s) := from_name d t in add_dep d' mf DModified s) ts d).
+Proof.
+  induction ts as [|t ts IH]; intro d; cbn [fold_left]; [apply EXT_refl|].
+  destruct (from_name d t) as [d1 s] eqn:E1.
+  eapply EXT_trans; [|apply IH].
+  apply from_name_spec in E1 as (_ & X1 & _). eapply EXT_trans; [exact X1|apply EXT_add_dep].
+Qed.
+
+Lemma ifcreate_cmd_STEP t ns w : STEP w (fst (ifcreate_cmd t ns w)).
+Proof.
+  unfold ifcreate_cmd. destruct ns as [|n ns]; [apply STEP_refl|].
+  destruct (existsb (exists_b w) (n :: ns)); cbn [fst]; [apply STEP_refl|].
+  apply STEP_ext. apply EXT_fold_ifcreate.
+Qed.
+
+Lemma frontend_deps_STEP e m ts w : STEP w (fst (frontend_deps e m ts w)).
+Proof.
+  unfold frontend_deps. destruct m; [apply STEP_refl|].
+  destruct (e_target e) as [me|]; [|apply STEP_refl].
+  destruct (e_unlocked e); [apply STEP_refl|].
+  destruct (existsb (bytes_eqb me) ts); [apply STEP_refl|].
+  destruct (from_name (dbs w) me) as [d1 mf] eqn:E. cbn [fst].
+  apply STEP_ext. apply from_name_spec in E as (_ & X & _).
+  eapply EXT_trans; [exact X|apply EXT_fold_frontend].
+Qed.
+
+(* redo-always: the only row written is the one named //ALWAYS *)
+Lemma always_cmd_STEP runid t w : STEP w (always_cmd runid t w).
+Proof.
+  unfold always_cmd.
+  destruct (from_name (dbs w) t) as [d1 me] eqn:E1. destruct (from_name d1 always_name) as [d2 al] eqn:E2.
+  apply from_name_spec in E1 as (_ & X1 & _). apply from_name_spec in E2 as (F2 & X2 & _).
+  set (d3 := add_dep d2 me DModified al).
+  assert (X3 : EXT (dbs w) d3) by (eapply EXT_trans; [exact X1|]; eapply EXT_trans; [exact X2|apply EXT_add_dep]).
+  eapply STEP_trans; [apply (STEP_ext w d3 X3)|].
+  match goal with |- STEP _ (set_db w (put_row d3 al ?r0)) => set (r := r0) end.
+  change (set_db w (put_row d3 al r)) with (set_db (set_db w d3) (put_row (dbs (set_db w d3)) al r)).
+  assert (Hnm : r_name r = always_name).
+  { unfold r. cbn [set_changed upd_row r_name]. unfold load. rewrite view_row_name.
+    apply (find_row_valid d3 always_name al). exact F2. }
+  apply STEP_put_row.
+  - rewrite Hnm. symmetry. apply (find_row_valid d3 always_name al). exact F2.
+  - intros n Hn Hr. exfalso. apply (protected_not_always _ _ Hn). congruence.
+Qed.
+
+(* redo-stamp: only the row of the target being built is written *)
+Lemma stamp_cmd_STEP1 n runid t content w :
+  t <> n -> NAMES w (stamp_cmd runid t content w) /\ PRES1 n w (stamp_cmd runid t content w).
+Proof.
+  intro Hne. unfold stamp_cmd. destruct (from_name (dbs w) t) as [d1 me] eqn:E1.
+  apply from_name_spec in E1 as (F1 & X1 & _).
+  set (r0 := load runid d1 me).
+  match goal with |- context [put_row d1 me ?x] => set (r2 := x) end.
+  assert (Hnm : r_name r2 = t).
+  { assert (H0 : r_name r0 = t) by (unfold r0, load; rewrite view_row_name; apply (find_row_valid d1 t me F1)).
+    unfold r2. match goal with |- context [if ?c then _ else _] => destruct c end; cbn; exact H0. }
+  destruct (STEP_ext w d1 X1) as [N1 P1].
+  change (set_db w (put_row d1 me r2)) with (set_db (set_db w d1) (put_row (dbs (set_db w d1)) me r2)).
+  assert (Hname : r_name r2 = r_name (get_row (dbs (set_db w d1)) me)).
+  { rewrite Hnm. symmetry. apply (find_row_valid d1 t me F1). }
+  split.
+  - eapply NAMES_trans; [exact N1|]. exists []. cbn [dbs set_db]. rewrite names_put_row by exact Hname. now rewrite app_nil_r.
+  - eapply PRES1_trans; [exact (P1 n)|]. apply PRES1_put_row; [exact Hname|].
+    intros _ Hr. exfalso. apply Hne. congruence.
+Qed.
+
+(* ================================================================ one name at a time, with names *)
+Definition STEP1 (n : name) (w w' : world) : Prop := NAMES w w' /\ PRES1 n w w'.
+Lemma STEP1_refl n w : STEP1 n w w.
+Proof. split; [apply NAMES_refl|]. intro H. auto. Qed.
+Lemma STEP1_trans n w1 w2 w3 : STEP1 n w1 w2 -> STEP1 n w2 w3 -> STEP1 n w1 w3.
+Proof. intros [N1 P1] [N2 P2]. split; [eapply NAMES_trans|eapply PRES1_trans]; eauto. Qed.
+Lemma STEP_STEP1 n w w' : STEP w w' -> STEP1 n w w'.
+Proof. intros [N P]. split; [exact N|exact (P n)]. Qed.
+Lemma STEP_of_STEP1 w w' : (forall n, STEP1 n w w') -> STEP w w'.
+Proof. intro H. split; [exact (proj1 (H []))|]. intro n. exact (proj2 (H n)). Qed.
+
+Lemma dbs_write_file w a data sc : dbs (write_file w a data sc) = dbs w.
+Proof. reflexivity. Qed.
+Lemma dbs_remove_file w a : dbs (remove_file w a) = dbs w.
+Proof. reflexivity. Qed.
+Lemma dbs_rename_file w a b : dbs (rename_file w a b) = dbs w.
+Proof. unfold rename_file. destruct (fs_get (fs w) a); reflexivity. Qed.
+
+(* a step that leaves n's file alone and rewrites one row whose name is not n *)
+Lemma STEP1_fs_put n w w' f r' :
+  (reserved n = false -> fs_get (fs w') n = fs_get (fs w) n) ->
+  rows (dbs w') = set_nth (rows (dbs w)) (f - 1) r' ->
+  r_name r' = r_name (get_row (dbs w) f) -> r_name r' <> n -> STEP1 n w w'.
+Proof.
+  intros Hfs Hrows Hname Hne.
+  apply (STEP1_trans n w (set_db w (put_row (dbs w) f r'))).
+  - split.
+    + exists []. cbn [dbs set_db]. rewrite names_put_row by exact Hname. now rewrite app_nil_r.
+    + apply PRES1_put_row; [exact Hname|]. intros _ E. contradiction.
+  - split; [apply NAMES_rows_same; exact Hrows|]. apply PRES1_fs; [exact Hfs|exact Hrows].
+Qed.
+
+(* a step that only touches other files *)
+Lemma STEP1_fs n w w' :
+  (reserved n = false -> fs_get (fs w') n = fs_get (fs w) n) -> rows (dbs w') = rows (dbs w) -> STEP1 n w w'.
+Proof. intros Hfs Hr. split; [now apply NAMES_rows_same|now apply PRES1_fs]. Qed.
+
+Lemma update_stamp_name runid w r : r_name (update_stamp runid w r) = r_name r.
+Proof. unfold update_stamp. destruct (ostamp_eqb _ _); reflexivity. Qed.
+Lemma set_failed_name runid w r : r_name (set_failed runid w r) = r_name r.
+Proof. unfold set_failed. cbn [upd_row r_name]. apply update_stamp_name. Qed.
+Lemma set_static_name runid w r : r_name (set_static runid w r) = r_name r.
+Proof. unfold set_static. cbn [upd_row r_name]. apply update_stamp_name. Qed.
+Lemma set_override_name runid w r : r_name (set_override runid w r) = r_name r.
+Proof. unfold set_override. cbn [upd_row r_name]. apply update_stamp_name. Qed.
+Lemma load_name runid d f : r_name (load runid d f) = r_name (get_row d f).
+Proof. unfold load. apply view_row_name. Qed.
+
+(* ================================================================ record_new_state *)
+Lemma record_new_state_db runid t f sf before rc stdout has_tmp w :
+  r_name (get_row (dbs w) f) = t -> r_name sf = t ->
+  exists sf2, r_name sf2 = t /\
+    rows (dbs (fst (record_new_state runid t f sf before rc stdout has_tmp w))) = set_nth (rows (dbs w)) (f - 1) sf2.
+Proof.
+  intros Hrow Hsf. unfold record_new_state.
+  match goal with
+  | |- context [if Z.eqb ?rv 0 then _ else _] => destruct (Z.eqb rv 0)
+  end.
+  - destruct stdout as [c|], has_tmp;
+      match goal with |- context [if ?b then _ else _] => destruct b end;
+      cbn [fst dbs set_db rows put_row zap_deps2];
+      rewrite ?dbs_rename_file, ?dbs_write_file, ?dbs_remove_file;
+      eexists; (split; [|reflexivity]);
+      cbn [set_changed upd_row r_name]; rewrite ?update_stamp_name; cbn [upd_row r_name];
+      rewrite load_name, ?dbs_rename_file, ?dbs_write_file, ?dbs_remove_file; exact Hrow.
+  - cbn [fst dbs set_db rows put_row zap_deps2]. rewrite dbs_remove_file.
+    eexists; split; [|reflexivity]. rewrite set_failed_name. exact Hsf.
+Qed.
+
+Lemma not_reserved_not_tmp n t : reserved n = false -> n <> tmp_of t.
+Proof. intros H ->. rewrite reserved_tmp_of in H. discriminate. Qed.
+
+Lemma record_new_state_STEP1 n runid t f sf before rc stdout has_tmp w :
+  t <> n -> r_name (get_row (dbs w) f) = t -> r_name sf = t ->
+  STEP1 n w (fst (record_new_state runid t f sf before rc stdout has_tmp w)).
+Proof.
+  intros Hne Hrow Hsf.
+  destruct (record_new_state_db runid t f sf before rc stdout has_tmp w Hrow Hsf) as (sf2 & Hn2 & Hrows).
+  eapply STEP1_fs_put; [|exact Hrows|congruence|congruence].
+  intro R. apply record_other_files; [congruence|now apply not_reserved_not_tmp].
+Qed.
+
+Lemma emit_output_STEP1 n t m out w :
+  t <> n -> STEP1 n w (fst (fst (emit_output t m out w))).
+Proof.
+  intros Hne. apply STEP1_fs; [intro R; apply emit_output_other; [congruence|now apply not_reserved_not_tmp]|].
+  unfold emit_output. destruct out; [|reflexivity]. destruct m; reflexivity.
+Qed.
+
+(* ================================================================ find_do_file *)
+Lemma find_do_file_EXT w : forall cands d t d2 found, find_do_file w d t cands = (d2, found) -> EXT d d2.
+Proof.
+  induction cands as [|c cs IH]; intros d t d2 found H; cbn [find_do_file] in H.
+  - inversion H; subst. apply EXT_refl.
+  - destruct (fs_get (fs w) (cand_key (updepth w) c)) as [fl|].
+    + destruct (from_name d (cand_key (updepth w) c)) as [d1 s] eqn:E. inversion H; subst.
+      apply from_name_spec in E as (_ & X & _). eapply EXT_trans; [exact X|apply EXT_add_dep].
+    + destruct (from_name d (cand_key (updepth w) c)) as [d1 s] eqn:E.
+      apply from_name_spec in E as (_ & X & _). eapply EXT_trans; [exact X|].
+      eapply EXT_trans; [apply EXT_add_dep|]. eapply IH. exact H.
+Qed.
+
+(* ================================================================ the script *)
+Definition rec_ok (rec : rec_t) : Prop :=
+  forall e m ts w0 w1 evs rc, rec e m ts w0 = Ret (w1, evs, rc) -> STEP w0 w1.
+
+Lemma script_body_STEP1 n rec envc t sc w w' evs rc out :
+  rec_ok rec -> t <> n ->
+  script_body rec envc t sc w = Ret (w', evs, rc, out) -> STEP1 n w w'.
+Proof.
+  intros Hrec Hne H. unfold script_body in H.
+  match type of H with
+  | context [match ?X with Ret _ => _ | EFuel => EFuel end] => set (rd := X) in H
+  end.
+  assert (Hrd : forall w1 e1 rc1, rd = Ret (w1, e1, rc1) -> STEP w w1).
+  { intros w1 e1 rc1 E. unfold rd in E. destruct (s_deps sc); [inversion E; apply STEP_refl|eapply Hrec; exact E]. }
+  destruct rd as [[[w1 e1] rc1]|]; [|discriminate].
+  specialize (Hrd _ _ _ eq_refl).
+  destruct (negb (Z.eqb rc1 0) && negb (s_tol sc)); [inversion H; subst; now apply STEP_STEP1|].
+  pose proof (ifcreate_cmd_STEP t (s_ifcreate sc) w1) as Hic.
+  destruct (ifcreate_cmd t (s_ifcreate sc) w1) as [w2 rc2]. cbn [fst] in Hic.
+  destruct (negb (Z.eqb rc2 0)).
+  { inversion H; subst. apply STEP_STEP1. eapply STEP_trans; eauto. }
+  set (w3 := if s_always sc then always_cmd (e_runid envc) t w2 else w2) in H.
+  assert (H3 : STEP w2 w3) by (unfold w3; destruct (s_always sc); [apply always_cmd_STEP|apply STEP_refl]).
+  assert (H03 : STEP1 n w w3) by (apply STEP_STEP1; eapply STEP_trans; [exact Hrd|]; eapply STEP_trans; eauto).
+  destruct (if s_cat sc then concat_data w3 (s_deps sc) else Some []) as [body|].
+  - inversion H; subst. destruct (s_stamp sc); [|exact H03].
+    eapply STEP1_trans; [exact H03|]. apply stamp_cmd_STEP1. exact Hne.
+  - inversion H; subst. exact H03.
+Qed.
+
+(* ================================================================ start_self, in three pieces *)
+(* (4)-(6): the .do was found; [w] already holds the database after find_do_file *)
+Definition ss_run (rec : rec_t) (e : env) (t : name) (f : fid) (before : option file) (sf : row)
+           (evs0 : list event) (df : dofile) (sc : script) (w : world) : job_result :=
+  let runid := e_runid e in
+  let w := remove_file w (tmp_of t) in
+  let '(d3, dofid) := from_name (dbs w) (cand_key (updepth w) df) in
+  let w := set_db w (put_row d3 dofid (set_static runid w (load runid d3 dofid))) in
+  let evs1 := evs0 ++ [EvRun t t (firstn (length t - length (ext df)) t) (tmp_of t)] in
+  let env_child := {| e_runid := runid; e_target := Some t; e_unlocked := false;
+                      e_no_oob := false; e_keep_going := e_keep_going e;
+                      e_cycles := f :: e_cycles e |} in
+  match script_body rec env_child t sc w with
+  | EFuel => EFuel
+  | Ret (w, evs2, rc_script, out) =>
+      let '(w, has_stdout, has_tmp) := emit_output t (s_out sc) out w in
+      let '(w, rv) := record_new_state runid t f sf before rc_script
+                        (if has_stdout then out else None) has_tmp w in
+      Ret (w, evs1 ++ evs2, rv, false)
+  end.
+
+(* (2)-(3): after the override test *)
+Definition ss_rest (rec : rec_t) (e : env) (t : name) (f : fid) (before : option file) (sf : row)
+           (evs0 : list event) (w : world) : job_result :=
+  let runid := e_runid e in
+  if exists_b w t && (r_ovr sf || negb (r_gen sf)) then
+    let sf' := if r_ovr sf then sf else set_static runid w sf in
+    Ret (set_db w (put_row (dbs w) f sf'), evs0, 0%Z, false)
+  else
+  let d1 := zap_deps1 (dbs w) f in
+  let '(d2, found) := find_do_file w d1 f (do_candidates (updepth w) t) in
+  match found with
+  | None =>
+      if exists_b w t then
+        Ret (set_db w (put_row d2 f (set_static runid w sf)), evs0, 0%Z, false)
+      else
+        Ret (set_db w (put_row d2 f (set_failed runid w sf)), evs0 ++ [EvNoRule t], 1%Z, false)
+  | Some (df, sc) => ss_run rec e t f before sf evs0 df sc (set_db w d2)
+  end.
+
+Definition ovr_now (sf : row) (ns : stamp) : bool :=
+  r_gen sf && negb (stamp_eqb ns SMissing)
+  && (r_ovr sf || match r_stamp sf with Some s => detect_override s ns | None => true end).
+
+Definition ovr_row (runid : Z) (w : world) (sf : row) (ns : stamp) : row :=
+  if r_ovr sf
+  then if ostamp_eqb (r_stamp sf) ns then sf
+       else upd_row sf (r_gen sf) (r_ovr sf) (r_checked sf) (Some runid) (r_failed sf) (Some ns) (r_csum sf)
+  else set_override runid w sf.
+
+Lemma start_self_pieces rec e t f before w :
+  start_self rec e t f before w =
+  let runid := e_runid e in
+  let sf := load runid (dbs w) f in
+  let ns := read_stamp w t in
+  if ovr_now sf ns
+  then ss_rest rec e t f before (ovr_row runid w sf ns) [EvWarnOverride t]
+               (set_db w (put_row (dbs w) f (ovr_row runid w sf ns)))
+  else ss_rest rec e t f before sf [] w.
+Proof.
+  unfold start_self, ss_rest, ss_run, ovr_now, ovr_row. cbv zeta.
+  match goal with |- context [if ?c then (_, _, _) else (_, _, _)] => destruct c end; reflexivity.
+Qed.
+
+Lemma EXT_NAMES_name w d' f :
+  EXT (dbs w) d' -> (f - 1 < length (rows (dbs w)))%nat -> r_name (get_row d' f) = r_name (get_row (dbs w) f).
+Proof.
+  intros X Hin. destruct (STEP_ext w d' X) as [N _]. exact (NAMES_get_row w (set_db w d') f N Hin).
+Qed.
+
+(* a row write composed with an extension of the table, for one name *)
+Lemma STEP1_ext_put n w d' f r' :
+  EXT (dbs w) d' -> (f - 1 < length (rows (dbs w)))%nat ->
+  r_name r' = r_name (get_row (dbs w) f) ->
+  (protected (set_db w d') n -> r_name r' = n -> row_protects (set_db w d') n r' = true) ->
+  STEP1 n w (set_db w (put_row d' f r')).
+Proof.
+  intros X Hin Hname Hok.
+  apply (STEP1_trans n w (set_db w d')); [apply STEP_STEP1; now apply STEP_ext|].
+  change (set_db w (put_row d' f r')) with (set_db (set_db w d') (put_row (dbs (set_db w d')) f r')).
+  assert (Hname' : r_name r' = r_name (get_row (dbs (set_db w d')) f)).
+  { cbn [dbs set_db]. rewrite Hname. symmetry. now apply EXT_NAMES_name. }
+  split.
+  - exists []. cbn [dbs set_db]. rewrite names_put_row by exact Hname'. now rewrite app_nil_r.
+  - apply PRES1_put_row; [exact Hname'|exact Hok].
+Qed.
+
+Lemma ss_run_STEP1 n rec e t f before sf evs0 df sc w w' evs rv ab :
+  rec_ok rec -> t <> n ->
+  (f - 1 < length (rows (dbs w)))%nat -> r_name (get_row (dbs w) f) = t -> r_name sf = t ->
+  ss_run rec e t f before sf evs0 df sc w = Ret (w', evs, rv, ab) -> STEP1 n w w'.
+Proof.
+  intros Hrec Hne Hin Hrow Hsf H. unfold ss_run in H. cbv zeta in H.
+  set (w1 := remove_file w (tmp_of t)) in *.
+  assert (S1 : STEP1 n w w1).
+  { apply STEP1_fs; [|reflexivity]. intro R. unfold w1. apply get_remove_other.
+    intro E. symmetry in E. revert E. now apply not_reserved_not_tmp. }
+  destruct (from_name (dbs w1) (cand_key (updepth w1) df)) as [d3 dofid] eqn:E3.
+  apply from_name_spec in E3 as (F3 & X3 & _).
+  set (w2 := set_db w1 (put_row d3 dofid (set_static (e_runid e) w1 (load (e_runid e) d3 dofid)))) in *.
+  assert (S2 : STEP w1 w2).
+  { eapply STEP_trans; [apply (STEP_ext w1 d3 X3)|].
+    unfold w2. change (set_db w1 (put_row d3 dofid ?r)) with (set_db (set_db w1 d3) (put_row (dbs (set_db w1 d3)) dofid r)).
+    apply STEP_put_row.
+    - rewrite set_static_name, load_name. reflexivity.
+    - intros m _ _. apply row_protects_safe. left. reflexivity. }
+  assert (S02 : STEP1 n w w2) by (eapply STEP1_trans; [exact S1|now apply STEP_STEP1]).
+  destruct (script_body rec _ t sc w2) as [[[[w3 evs2] rc_script] out]|] eqn:Esb; [|discriminate].
+  pose proof (script_body_STEP1 n _ _ _ _ _ _ _ _ _ Hrec Hne Esb) as S3.
+  pose proof (emit_output_STEP1 n t (s_out sc) out w3 Hne) as S4.
+  destruct (emit_output t (s_out sc) out w3) as [[w4 has_stdout] has_tmp]. cbn [fst] in S4.
+  assert (S04 : STEP1 n w w4) by (eapply STEP1_trans; [exact S02|]; eapply STEP1_trans; eauto).
+  assert (Hrow4 : r_name (get_row (dbs w4) f) = t).
+  { rewrite <- Hrow. apply NAMES_get_row; [exact (proj1 S04)|exact Hin]. }
+  pose proof (record_new_state_STEP1 n (e_runid e) t f sf before rc_script (if has_stdout then out else None) has_tmp w4 Hne Hrow4 Hsf) as S5.
+  destruct (record_new_state (e_runid e) t f sf before rc_script (if has_stdout then out else None) has_tmp w4) as [w5 rv5].
+  cbn [fst] in S5. inversion H; subst. eapply STEP1_trans; eauto.
+Qed.
+
+Lemma ss_rest_STEP1_other n rec e t f before sf evs0 w w' evs rv ab :
+  rec_ok rec -> t <> n ->
+  find_row (rows (dbs w)) t 1 = Some f -> r_name sf = t ->
+  ss_rest rec e t f before sf evs0 w = Ret (w', evs, rv, ab) -> STEP1 n w w'.
+Proof.
+  intros Hrec Hne Hf Hsf H. destruct (find_row_valid _ _ _ Hf) as [Hin Hrow].
+  unfold ss_rest in H. cbv zeta in H.
+  destruct (exists_b w t && (r_ovr sf || negb (r_gen sf))).
+  { inversion H; subst w'. apply STEP_STEP1. apply STEP_put_row.
+    - destruct (r_ovr sf); [|rewrite set_static_name]; congruence.
+    - intros m _ _. apply row_protects_safe. destruct (r_ovr sf) eqn:O; [right; exact O|left; reflexivity]. }
+  destruct (find_do_file w (zap_deps1 (dbs w) f) f (do_candidates (updepth w) t)) as [d2 found] eqn:Efd.
+  assert (X2 : EXT (dbs w) d2).
+  { eapply EXT_trans; [apply (EXT_rows_same (dbs w) (zap_deps1 (dbs w) f)); reflexivity|]. eapply find_do_file_EXT; exact Efd. }
+  destruct found as [[df sc]|].
+  - (* the script runs *)
+    apply (STEP1_trans n w (set_db w d2)); [apply STEP_STEP1; now apply STEP_ext|].
+    eapply ss_run_STEP1; [exact Hrec|exact Hne| | |exact Hsf|exact H].
+    + cbn [dbs set_db]. destruct X2 as (l & -> & _). rewrite app_length. lia.
+    + cbn [dbs set_db]. rewrite <- Hrow. now apply EXT_NAMES_name.
+  - destruct (exists_b w t); inversion H; subst w'.
+    + apply STEP1_ext_put; [exact X2|exact Hin|rewrite set_static_name; congruence|].
+      intros _ Hm. exfalso. apply Hne. rewrite <- Hm, set_static_name. symmetry. exact Hsf.
+    + apply STEP1_ext_put; [exact X2|exact Hin|rewrite set_failed_name; congruence|].
+      intros _ Hm. exfalso. apply Hne. rewrite <- Hm, set_failed_name. symmetry. exact Hsf.
+Qed.
+
+Lemma name_neq_snoc (t : name) : t <> t ++ [0%N].
+Proof. intro H. apply (f_equal (@length _)) in H. rewrite app_length in H. cbn in H. lia. Qed.
+
+Lemma ss_rest_STEP1 n rec e t f before sf evs0 w w' evs rv ab :
+  rec_ok rec ->
+  find_row (rows (dbs w)) t 1 = Some f -> r_name sf = t ->
+  (t = n -> protected w n -> exists_b w t && (r_ovr sf || negb (r_gen sf)) = true) ->
+  ss_rest rec e t f before sf evs0 w = Ret (w', evs, rv, ab) -> STEP1 n w w'.
+Proof.
+  intros Hrec Hf Hsf Hown H.
+  destruct (list_eq_dec N.eq_dec t n) as [E|Hne]; [|eapply ss_rest_STEP1_other; eauto].
+  split; [exact (proj1 (ss_rest_STEP1_other (t ++ [0%N]) _ _ _ _ _ _ _ _ _ _ _ _ Hrec (name_neq_snoc t) Hf Hsf H))|].
+  intro Hp. pose proof (Hown E Hp) as Hc.
+  unfold ss_rest in H. cbv zeta in H. rewrite Hc in H. inversion H; subst w'.
+  apply PRES1_put_row; [|intros _ _; apply row_protects_safe|exact Hp].
+  - destruct (find_row_valid _ _ _ Hf) as [_ Hrow]. destruct (r_ovr sf); [|rewrite set_static_name]; congruence.
+  - destruct (r_ovr sf) eqn:O; [right; exact O|left; reflexivity].
+Qed.
+
+Lemma start_self_STEP rec e t f before w w' evs rv ab :
+  rec_ok rec ->
+  find_row (rows (dbs w)) t 1 = Some f ->
+  start_self rec e t f before w = Ret (w', evs, rv, ab) -> STEP w w'.
+Proof.
+  intros Hrec Hf H. rewrite start_self_pieces in H. cbv zeta in H.
+  destruct (find_row_valid _ _ _ Hf) as [Hin Hrow].
+  set (runid := e_runid e) in *. set (sf := load runid (dbs w) f) in *. set (ns := read_stamp w t) in *.
+  assert (Hsf : r_name sf = t) by (unfold sf; rewrite load_name; exact Hrow).
+  apply STEP_of_STEP1. intro n.
+  destruct (ovr_now sf ns) eqn:EO.
+  - (* the file is (still, or newly) an override: that is recorded first *)
+    set (sfo := ovr_row runid w sf ns) in *.
+    assert (Hsfo : r_name sfo = t).
+    { unfold sfo, ovr_row. destruct (r_ovr sf); [destruct (ostamp_eqb _ _); exact Hsf|rewrite set_override_name; exact Hsf]. }
+    assert (Ho : r_ovr sfo = true).
+    { unfold sfo, ovr_row. destruct (r_ovr sf) eqn:O; [destruct (ostamp_eqb _ _); cbn; congruence|reflexivity]. }
+    set (wA := set_db w (put_row (dbs w) f sfo)) in *.
+    assert (SA : STEP w wA).
+    { apply STEP_put_row; [congruence|]. intros m _ _. apply row_protects_safe. right. exact Ho. }
+    apply (STEP1_trans n w wA); [now apply STEP_STEP1|].
+    eapply ss_rest_STEP1; [exact Hrec| |exact Hsfo| |exact H].
+    + eapply NAMES_find; [exact (proj1 SA)|exact Hf].
+    + intros E Hp. rewrite Ho. cbn [orb]. rewrite andb_true_r. subst n. exact (proj1 Hp).
+  - eapply ss_rest_STEP1; [exact Hrec|exact Hf|exact Hsf| |exact H].
+    intros E Hp. subst n. destruct Hp as (Hex & _ & Hrp). rewrite Hex. cbn [andb].
+    specialize (Hrp f Hf). unfold row_protects in Hrp.
+    unfold ovr_now in EO. fold ns in Hrp.
+    assert (Hns : stamp_eqb ns SMissing = false) by (apply exists_read_stamp; exact Hex).
+    rewrite Hns in EO. cbn [negb] in EO. rewrite andb_true_r in EO.
+    unfold sf, load in *. rewrite view_row_gen, view_row_ovr, view_row_stamp in *.
+    destruct (r_gen (get_row (dbs w) f)); [|now rewrite orb_true_r].
+    cbn [negb orb andb] in *. rewrite EO in Hrp. discriminate.
+Qed.
+
+(* ================================================================ start, run_loop, build *)
+Lemma prepend_events_inv evd r w' evs rv ab :
+  prepend_events evd r = Ret (w', evs, rv, ab) -> exists evs0, r = Ret (w', evs0, rv, ab).
+Proof. unfold prepend_events. destruct r as [[[[w1 e1] r1] a1]|]; [|discriminate]. intro H. inversion H; subst. eauto. Qed.
+
+Lemma start_STEP rec fuel e m t w w' evs rv ab :
+  rec_ok rec -> start rec fuel e m t w = Ret (w', evs, rv, ab) -> STEP w w'.
+Proof.
+  intros Hrec H. unfold start in H. cbv zeta in H.
+  destruct (from_name (dbs w) t) as [d0 f] eqn:E0.
+  apply from_name_spec in E0 as (F0 & X0 & _).
+  apply (STEP_trans w (set_db w d0)); [now apply STEP_ext|].
+  set (w0 := set_db w d0) in *.
+  assert (Hf0 : find_row (rows (dbs w0)) t 1 = Some f) by exact F0.
+  destruct m.
+  - eapply start_self_STEP; eauto.
+  - destruct (is_failed (e_runid e) (load (e_runid e) (dbs w0) f)); [inversion H; subst; apply STEP_refl|].
+    destruct (is_dirty fuel (e_runid e) w0 ChkDb f (e_runid e) []) as [[[[v wd] cd] evd]|] eqn:Ed; [|discriminate].
+    pose proof (is_dirty_DSTEP _ _ _ _ _ _ _ _ _ _ _ Ed) as Dd.
+    apply (STEP_trans w0 wd); [now apply DSTEP_STEP|].
+    assert (Hfd : find_row (rows (dbs wd)) t 1 = Some f).
+    { rewrite <- Hf0. apply find_row_by_names. exact (proj1 (proj2 Dd)). }
+    match type of H with
+    | context [match ?V with VClean => _ | VDirty => _ | VNeed _ => _ | VCycle => _ end] => destruct V as [| |l|]
+    end.
+    + inversion H; subst. apply STEP_refl.
+    + apply prepend_events_inv in H as [evs0 H]. eapply start_self_STEP; eauto.
+    + destruct (e_no_oob e).
+      * apply prepend_events_inv in H as [evs0 H]. eapply start_self_STEP; eauto.
+      * match type of H with
+        | context [rec ?E1 MIfChange ?NS wd] => destruct (rec E1 MIfChange NS wd) as [[[w1 ev1] rc1]|] eqn:R1; [|discriminate]
+        end.
+        pose proof (Hrec _ _ _ _ _ _ _ R1) as S1.
+        destruct (negb (Z.eqb rc1 0)); [inversion H; subst; exact S1|].
+        match type of H with
+        | context [rec ?E2 MIfChange [t] w1] => destruct (rec E2 MIfChange [t] w1) as [[[w2 ev2] rc2]|] eqn:R2; [|discriminate]
+        end.
+        pose proof (Hrec _ _ _ _ _ _ _ R2) as S2.
+        inversion H; subst. eapply STEP_trans; eauto.
+    + inversion H; subst. apply STEP_refl.
+Qed.
+
+Lemma run_loop_STEP job e :
+  (forall t w w' evs rv ab, job t w = Ret (w', evs, rv, ab) -> STEP w w') ->
+  forall ts seen w evs errored w' evs' rc,
+    run_loop job e ts seen w evs errored = Ret (w', evs', rc) -> STEP w w'.
+Proof.
+  intros Hjob. induction ts as [|t ts IH]; intros seen w evs errored w' evs' rc H; cbn [run_loop] in H.
+  - inversion H; subst. apply STEP_refl.
+  - destruct (errored && negb (e_keep_going e)); [inversion H; subst; apply STEP_refl|].
+    destruct (from_name (dbs w) t) as [d0 f] eqn:E0.
+    apply from_name_spec in E0 as (_ & X0 & _).
+    destruct (existsb (Nat.eqb f) seen).
+    { eapply STEP_trans; [apply (STEP_ext w d0 X0)|]. eapply IH; exact H. }
+    destruct (negb (e_unlocked e) && existsb (Nat.eqb f) (e_cycles e)).
+    { inversion H; subst. now apply STEP_ext. }
+    destruct (job t w) as [[[[w1 ev1] rv1] ab1]|] eqn:Ej; [|discriminate].
+    pose proof (Hjob _ _ _ _ _ _ Ej) as S1.
+    destruct ab1; [inversion H; subst; exact S1|].
+    eapply STEP_trans; [exact S1|]. eapply IH; exact H.
+Qed.
+
+Theorem build_STEP : forall fuel e m ts w w' evs rc,
+  build fuel e m ts w = Ret (w', evs, rc) -> STEP w w'.
+Proof.
+  induction fuel as [|fuel IH]; intros e m ts w w' evs rc H; [discriminate|].
+  cbn [build] in H.
+  pose proof (frontend_deps_STEP e m ts w) as S0.
+  destruct (frontend_deps e m ts w) as [w0 self_dep]. cbn [fst] in S0.
+  destruct self_dep; [inversion H; subst; exact S0|].
+  eapply STEP_trans; [exact S0|].
+  eapply run_loop_STEP; [|exact H].
+  intros t w1 w1' evs1 rv1 ab1 Hs. eapply start_STEP; [|exact Hs].
+  intros e1 m1 ts1 wa wb evsb rcb Hb. eapply IH; exact Hb.
+Qed.
+
+(* ================================================================ commands and histories *)
+Lemma new_run_STEP w : STEP w (fst (new_run w)).
+Proof. unfold new_run. cbn [fst]. apply STEP_rows_same; reflexivity. Qed.
+
+Theorem exec_STEP c w : STEP w (fst (exec c w)).
+Proof.
+  unfold exec. pose proof (new_run_STEP w) as S0. destruct (new_run w) as [w0 runid]. cbn [fst] in S0.
+  destruct c as [k ts|k ts| | |]; cbn [fst].
+  - destruct (build _ _ MRedo ts w0) as [[[w1 evs] rc]|] eqn:Eb; cbn [fst]; [|exact S0].
+    eapply STEP_trans; [exact S0|]. eapply build_STEP; exact Eb.
+  - destruct (build _ _ MIfChange ts w0) as [[[w1 evs] rc]|] eqn:Eb; cbn [fst]; [|exact S0].
+    eapply STEP_trans; [exact S0|]. eapply build_STEP; exact Eb.
+  - match goal with |- STEP w (fst (match ?r with _ => _ end)) => destruct r as [[[[? ?] ?] [|]]|] end; exact S0.
+  - exact S0.
+  - exact S0.
+Qed.
+
+(* steps of the user that leave n alone *)
+Definition step_spares (n : name) (s : hstep) : Prop :=
+  match s with
+  | SWrite m _ | SWriteDo m _ | SRemove m => m <> n
+  | SHint _ | SCmd _ => True
+  end.
+
+Lemma do_step_PRES1 n s w : step_spares n s -> PRES1 n w (fst (do_step s w)).
+Proof.
+  intro Hs. destruct s as [m data|m sc|m|h|c]; cbn [do_step fst] in *.
+  - apply PRES1_fs; [intros _; now apply get_write_other|reflexivity].
+  - apply PRES1_fs; [intros _; now apply get_write_other|reflexivity].
+  - apply PRES1_fs; [intros _; now apply get_remove_other|reflexivity].
+  - apply PRES1_fs; [intros _; reflexivity|reflexivity].
+  - pose proof (exec_STEP c w) as [_ P]. destruct (exec c w) as [w' o]. cbn [fst] in *. exact (P n).
+Qed.
+
+(* C11 over whole histories: once a file exists and is not redo's own, no
+   sequence of redo commands (interleaved with user edits of OTHER files)
+   changes or removes it, and it stays protected *)
+Theorem history_protects n : forall h w,
+  protected w n -> Forall (step_spares n) h ->
+  forall w' o, In (w', o) (run_history h w) -> fs_get (fs w') n = fs_get (fs w) n /\ protected w' n.
+Proof.
+  induction h as [|s h IH]; intros w Hp Hall w' o Hin; cbn [run_history] in Hin; [contradiction|].
+  inversion Hall as [|s0 h0 Hs Hh]; subst.
+  pose proof (do_step_PRES1 n s w Hs Hp) as [E1 P1].
+  destruct (do_step s w) as [w1 o1]. cbn [fst] in *.
+  destruct Hin as [Hin|Hin].
+  - inversion Hin; subst. auto.
+  - destruct (IH w1 P1 Hh w' o Hin) as [E2 P2]. split; [congruence|exact P2].
+Qed.
+
+(* when does a user's write make the file protected?  Always, unless a row
+   claims the file as generated with exactly the stamp the new file gets
+   (excluded by A-STAMP: every write takes a fresh mtime) *)
+Lemma user_write_protected w n data sc :
+  reserved n = false ->
+  (forall i s, find_row (rows (dbs w)) n 1 = Some i -> r_stamp (get_row (dbs w) i) = Some s ->
+     s <> SFile (clock w) (N.of_nat (length data))) ->
+  protected (write_file w n data sc) n.
+Proof.
+  intros R Hfresh. unfold protected. split; [|split; [exact R|]].
+  - unfold exists_b. now rewrite get_write_same.
+  - intros i Hi. cbn [dbs write_file] in *. unfold row_protects.
+    destruct (r_stamp (get_row (dbs w) i)) as [s|] eqn:Es; [|now rewrite orb_true_r].
+    assert (Hd : detect_override s (read_stamp (write_file w n data sc) n) = true).
+    { unfold read_stamp. rewrite get_write_same. cbn [f_mt f_data]. unfold detect_override.
+      destruct (stamp_eqb s (SFile (clock w) (N.of_nat (length data)))) eqn:Eq; [|reflexivity].
+      exfalso. apply (Hfresh i s Hi Es). destruct s as [|mt sz]; cbn in Eq; [discriminate|].
+      apply andb_true_iff in Eq as [A B]. apply N.eqb_eq in A. apply N.eqb_eq in B. congruence. }
+    rewrite Hd. now rewrite orb_true_r.
 Qed.
